@@ -25,6 +25,7 @@ RULE = ('histories of 5-40 calls on one SqParser (plain and with a dict parse ca
         'Non-trivial = a call whose outcome was compared with the history-free outcome for the same visible arguments; distinct = distinct (history prefix hash, call).')
 RULE += ' A sample of the calls is also replayed in a fresh process (state at module level); names templates include one that shadows builtins and a read-only mapping; corpora contain equal-but-differently-spelled literals whose text is exposed.'
 RULE += ' Sweep: every text of the corpus, twice, on one long-lived parser per worker process, each outcome compared with the outcome of the same call in a fresh process (a zygote forks a child per distinct call; only the child imports the package; outcomes are shared between workers); the corpus includes texts that raise decimal signals (underflow) and print equal numbers written differently.'
+RULE += ' Template rotation: texts of the corpus evaluated under all six names templates in a row (random order) on the long-lived plain and caching parsers, each outcome against a history-free parser.'
 ASSUMPTIONS = ['visible arguments = source text, budget, and the contents of names with callables treated as opaque (equal if both are callables)',
                'a partially consumed list_names generator is abandoned, never resumed after another call',
                'a history-free parser is a freshly constructed SqParser (about one in seven) or a deep copy of a constructed-but-never-used one (17 ms instead of 130 ms); it serves exactly one call']
@@ -280,6 +281,7 @@ def cases(ctx):
         yield ('hist', gen_history(r), r.random() < 0.4)
         if i % 100 == 5 and not os.environ.get("NOSWEEP"):
             yield ('sweep', rnd.getrandbits(32))
+            yield ('templates', rnd.getrandbits(32))
 
 
 def key_of(entry, src, names, budget, k):
@@ -323,9 +325,47 @@ def run_sweep(case, ctx):
             return
 
 
+def run_templates(case, ctx):
+    """one text evaluated under every names template in a row on the long-lived parsers (the caching one reuses ONE tree for all of them): bindings that
+    shadow builtins, a read-only mapping, persistent-looking values; each outcome against a history-free parser"""
+    r = random.Random(case[1])
+    texts = [src for kind in ('ok', 'runtime') for src in KINDS[kind]]
+    if ctx.quick:
+        texts = r.sample(texts, 24)
+    if ctx.sweepP is None:
+        ctx.sweepP = (ctx.SqParser(), ctx.SqParser(parse_cache={}))
+    for n, src in enumerate(texts):
+        order = [0, 1, 2, 3, 4, 5]
+        r.shuffle(order)
+        P = ctx.sweepP[(n + case[1]) % 2]
+        for t in order:
+            names = fresh_names(t)
+            key = key_of('eval', src, names, None, 0)
+            ctx.cur = {'first': None, 'foreign': 0}
+            out = do_call(P, 'eval', src, names, None, 0)
+            ctx.evaluations += 1
+            if out == ('recursion',):
+                continue
+            if key not in ctx.memo:
+                ctx.cur = {'first': None, 'foreign': 0}
+                ctx.memo[key] = do_call(copy.deepcopy(ctx.pristine), 'eval', src, fresh_names(t), None, 0)
+                ctx.count('history_free_members_on_deep_copies_of_an_unused_parser')
+            ref = ctx.memo[key]
+            ctx.count('outcomes_compared_with_history_free_call')
+            ctx.count('template_rotation_calls_compared')
+            ctx.nontriv('templates|%s|%d|%s' % (src, t, P is ctx.sweepP[1]))
+            if out != ref and ref != ('recursion',):
+                ctx.violation('a call with the same arguments gives a different outcome on a fresh parser', ('templates', case[1]),
+                              detail={'call': ['eval', src, 'fresh%d' % t, None, 0], 'parser': 'cached' if P is ctx.sweepP[1] else 'plain',
+                                      'templates_before_on_this_text': order[:order.index(t)], 'with_history': repr(out)[:300], 'history_free': repr(ref)[:300]})
+                return
+
+
 def run_case(case, ctx):
     if case[0] == 'sweep':
         return run_sweep(case, ctx)
+    if case[0] == 'templates':
+        return run_templates(case, ctx)
     _, calls, cached = case
     P = ctx.SqParser(parse_cache={}) if cached else ctx.SqParser()
     M7 = monitors.TokenMonitor(P)
